@@ -235,7 +235,7 @@ package inference
 //@ method InferredVal copy dispatch
 
 //@ func (*DeterminedVal).copy
-//@ prop C06 C03
+//@ prop C06 C03 C05
 //@ requires (not (= e nil))
 //@ modifies (obj e)
 //@ ensures fresh-copy (and (is result *DeterminedVal) (fresh (as result *DeterminedVal)) (not (= (as result *DeterminedVal) nil)) (= (. (as result *DeterminedVal) Bool) (old e.Bool)))
@@ -245,7 +245,7 @@ package inference
 //@ define (listFresh m) (and (not (= m nil)) (fresh m) (omOK m) (fresh m.inner) (or (isnil m.Pairs) (fresh m.Pairs))
 //@    (forall ((j Int)) (=> (omInRange m j) (fresh (omPair m j)))))
 //@ func (*UndeterminedVal).copy
-//@ prop C06 C03
+//@ prop C06 C03 C05
 //@ requires (and (not (= e nil)) (omOK e.Implicants) (omOK e.Implicates))
 //@ modifies (obj e) (obj e.Implicates) (map e.Implicates.inner) (elems e.Implicates.Pairs) (obj (omPair e.Implicates 0))
 //@ ensures others-untouched (forall ((d *UndeterminedVal)) (=> (allocated-before d) (= (deref d) (old (deref d)))))
@@ -290,7 +290,7 @@ package inference
 //@ ensures other-snapshots-kept (forall ((s primitiveSite)) (=> (not (= s site)) (and (= (up e.inferredMap s) (old (up e.inferredMap s))) (= (upVal e.inferredMap s) (old (upVal e.inferredMap s))))))
 
 //@ func (*UndeterminedVal).copy$1
-//@ prop C06 C03
+//@ prop C06 C03 C05
 //@ requires (omOK s)
 //@ modifies (obj s) (map s.inner) (elems s.Pairs) (obj (omPair s 0))
 //@ ensures fresh-list (and (listFresh result) (not (= result s)))
